@@ -6,7 +6,7 @@ turns the outcome into exit code, VIOLATION / KNOWN-FINDING lines, a replay file
 """
 import fcntl, json, os, re, shutil, subprocess, sys, time, hashlib, random
 
-VERIF = os.environ.get("VERIF_DIR", "/verif")
+VERIF = os.environ.get("VERIF_DIR") or os.path.dirname(os.path.dirname(os.path.abspath(__file__)))
 REPO = os.environ.get("REPO", "/repo")
 LEAN = os.path.join(VERIF, "lean")
 BUILD = os.path.join(VERIF, "build")
@@ -94,12 +94,12 @@ class Ctx:
     # ------------------------------------------------------------------ ties T / F
     def overlay(self, extra=None):
         self.ovl = _overlay.build_overlay(extra)
+        _overlay.mklake()
         return self.ovl
 
     def go2lean(self, modules):
         """Regenerate AlgoVerif/Gen/<Module>.lean for the listed modules from the current tree."""
-        cfg = json.load(open(os.path.join(VERIF, "tools", "go2lean.json")))
-        sel = [m for m in cfg if m["module"] in modules]
+        sel = [m for m in _overlay.go2lean_config() if m["module"] in modules]
         cpath = os.path.join(self.work, "go2lean.json")
         json.dump(sel, open(cpath, "w"))
         with Lock("gen"):
